@@ -130,16 +130,15 @@ Definition all_ok (l : list string) : string :=
   | bad => String.concat "/" bad
   end.
 
-(* C16: what the canvas saw.  activities / executed updates ; every point has one coordinate per rank of
-   the tensor handed to createCanvas ; all (space, time) stamps distinct *)
-Definition canvas_report (st : state) : string :=
-  let acts := filter (fun ev => String.eqb (fst ev) "canvas.addActivity") (log st) in
-  let ranks := match find (fun ev => String.eqb (fst ev) "createCanvas") (log st) with
-               | Some (_, ts) => map (fun tv => match get_tensor st tv with Some (ids, _, _) => Some (length ids) | None => None end) ts
-               | None => [] end in
+(* C16: what each canvas saw.  activities / executed updates ; every point has one coordinate per rank of
+   the tensor handed to createCanvas ; all (space, time) stamps of one canvas distinct *)
+Definition canvas_one (st : state) (cv : value) (tensors : list value) : nat * bool * bool :=
+  let acts := filter (fun ev => String.eqb (fst ev) "canvas.addActivity" &&
+                                match snd ev with c :: _ => veqb c cv | [] => false end) (log st) in
+  let ranks := map (fun tv => match get_tensor st tv with Some (ids, _, _) => Some (length ids) | None => None end) tensors in
   let arity_ok :=
     forallb (fun ev =>
-               let pts := removelast (snd ev) in
+               let pts := removelast (tl (snd ev)) in
                Nat.eqb (length pts) (length ranks) &&
                forallb (fun pr => match pr with
                                   | (VTuple cs, Some n) => Nat.eqb (length cs) n
@@ -148,7 +147,13 @@ Definition canvas_report (st : state) : string :=
   let distinct :=
     (fix go (l : list value) : bool :=
        match l with [] => true | x :: l' => negb (existsb (veqb x) l') && go l' end) stamps in
-  show_nat (length acts) ++ "/" ++ show_nat (count_log st "update") ++ "," ++ show_bool arity_ok ++ "," ++ show_bool distinct.
+  (length acts, arity_ok, distinct).
+
+Definition canvas_report (st : state) : string :=
+  let cvs := filter (fun ev => String.eqb (fst ev) "createCanvas") (log st) in
+  let rs := map (fun ev => match snd ev with c :: ts => canvas_one st c ts | [] => (O, false, false) end) cvs in
+  show_nat (fold_left (fun acc r => Nat.add acc (fst (fst r))) rs O) ++ "/" ++ show_nat (count_log st "update") ++ "," ++
+  show_bool (forallb (fun r => snd (fst r)) rs) ++ "," ++ show_bool (forallb (fun r => snd r) rs).
 
 Record rcase := mkCase {
   c_prog : program;
